@@ -48,7 +48,7 @@ impl DomainGovernanceDocument {
   }
 }
 
-#[cfg(rustdds_verif)]
+#[cfg(all(rustdds_verif, any(not(rustdds_verif_only), rustdds_verif_c18)))]
 impl DomainGovernanceDocument {
   pub(crate) fn verif_rules(&self) -> &[DomainRule] {
     &self.domain_access_rules
